@@ -1477,9 +1477,14 @@ def evaluate_is(ctx, cases, runner):
 # ----------------------------------------------------------------------------- histories on annotated variables
 SATS[4] = "satisfying(\\x -> x is list and (len(x) == 0 or x[0] != 5))"
 HIST_TYPES = ["int", "int", "number", "str", "list", "list", "anything", "rational", "float", "nulltype", "struct_instance",
-              ("struct", 0), ("sat", 0), ("sat", 1), ("sat", 2), ("sat", 3), ("sat", 4), ("sat", 4)]
+              "stream", "stream", "vector", "bytes", "dict", "func", "type",
+              ("struct", 0), ("struct", 1), ("sat", 0), ("sat", 1), ("sat", 2), ("sat", 3), ("sat", 4), ("sat", 4)]
 HIST_VALUES = [NULL, I(0), I(1), I(5), I(7), I(-3), I(2 ** 70), R(1, 2), F(1.5), S("a"), S("ab"), L(), L(I(1)), L(I(1), I(2)),
-               L(I(5), I(2)), L(S("a"), I(1)), X(0, I(1), I(2)), X(1, I(3))]
+               L(I(5), I(2)), L(S("a"), I(1)), X(0, I(1), I(2)), X(1, I(3)),
+               T(I(1), I(2), I(3)), T(I(1), I(2), I(3), I(4), I(5)), Vc(I(1), I(2)), Vc(I(1), I(2), I(3)), B(1, 2), B(7, 8, 9),
+               D(), D((I(0), I(2)))]
+FUNC_VALUES = [("func", "print"), TY("int"), TY("list")]   # only in variables declared func / type
+INDEXABLE = ("list", "stream", "vector", "bytes", "dict", ("sat", 4))
 OPS = {0: "+", 1: "-", 2: "*", 3: "max", 4: "min", 5: "append"}
 
 
@@ -1488,7 +1493,7 @@ def hist_value_for(rng, t, stray=0.2):
     if rng.random() < stray:
         return rng.choice(HIST_VALUES)
     good = []
-    for v in HIST_VALUES:
+    for v in HIST_VALUES + (FUNC_VALUES if t in ("func", "type") else []):
         try:
             if py_is_type(t, v):
                 good.append(v)
@@ -1499,6 +1504,8 @@ def hist_value_for(rng, t, stray=0.2):
 
 def gen_hist(rng, nsteps):
     tys = [rng.choice(HIST_TYPES), None, rng.choice(HIST_TYPES)]
+    if rng.random() < 0.5:
+        tys[rng.choice([0, 2])] = rng.choice(INDEXABLE)
     names = [0, 1, 2]
     steps = []  # (source, model, writes)
     for x in names:
@@ -1510,7 +1517,13 @@ def gen_hist(rng, nsteps):
             steps[-1] = (f"zz{x} := {v_src(v)}", f"declare ann var {x} none {v_model(v)}", [])
         else:
             steps.append((f"zz{x}: {ty_src(t)} = {v_src(v)}", f"declare ann var {x} some type {ty_model(t)} {v_model(v)}", []))
-    listy = [x for x in names if tys[x] in ("list", ("sat", 4))]
+    listy = [x for x in names if tys[x] in INDEXABLE]
+    # max / min treat a function argument as a key function: not used where functions can flow
+    ops = [o for o in OPS if o not in (3, 4)] if any(t in ("func", "type") for t in tys) else list(OPS)
+    def ob(i):
+        return "" if i is None else int_src(i)
+    def om(i):
+        return "_" if i is None else str(i)
     for _ in range(nsteps):
         r = rng.random()
         x = rng.choice([0, 0, 0, 1, 2, 2])
@@ -1518,9 +1531,29 @@ def gen_hist(rng, nsteps):
         tx = tys[x] if tys[x] is not None else "anything"
         v = hist_value_for(rng, tx) if rng.random() < 0.6 else rng.choice(HIST_VALUES)
         w = rng.choice(HIST_VALUES)
-        if r < 0.2:
+        if listy and r < 0.3:
+            # indexed / sliced / every / op writes into a container-typed variable
+            x = rng.choice(listy)
+            i = rng.choice([0, 0, 1, -1, 2, -3, 5])
+            e = rng.choice([I(5), I(5), I(1), I(0), I(300), I(-3), S("a"), L(), NULL, R(1, 2)])
+            k = rng.random()
+            if k < 0.4:
+                ev = "every " if rng.random() < 0.3 else ""
+                steps.append((f"{ev}zz{x}[{int_src(i)}] = {v_src(e)}", f"setindex {x} {i} {v_model(e)}", [x]))
+            elif k < 0.7:
+                lo, hi = rng.choice([None, 0, 1, -2]), rng.choice([None, 2, -1, 9, 0])
+                if tys[x] == "dict":
+                    lo, hi = rng.choice([(None, None), (None, None), (0, 1)])
+                every = rng.random() < 0.8
+                steps.append((f"{'every ' if every else ''}zz{x}[{ob(lo)}:{ob(hi)}] = {v_src(e)}",
+                              f"setslice {x} {om(lo)} {om(hi)} {1 if every else 0} {v_model(e)}", [x]))
+            else:
+                op = rng.choice(ops)
+                opnd = rng.choice([I(1), I(2), I(300), R(1, 2), S("a"), I(5)])
+                steps.append((f"zz{x}[{int_src(i)}] {OPS[op]}= {v_src(opnd)}", f"opindex {x} {i} {op} {v_model(opnd)}", [x]))
+        elif r < 0.42:
             steps.append((f"zz{x} = {v_src(v)}", f"assign var {x} {v_model(v)}", [x]))
-        elif r < 0.32:
+        elif r < 0.52:
             form = rng.randrange(4)
             if form == 0:
                 steps.append((f"zz{x}, zz{y} = {v_src(v)}, {v_src(w)}", f"assign seq 0 2 var {x} var {y} list 2 {v_model(v)} {v_model(w)}", [x, y]))
@@ -1529,33 +1562,27 @@ def gen_hist(rng, nsteps):
                 steps.append((f"zz{x}, ...zz{y} = {v_src(lst)}", f"assign seq 0 2 var {x} splat var {y} {v_model(lst)}", [x, y]))
             elif form == 2:
                 lst = rng.choice([L(v, w), L(v), v])
+                if lst[0] == "dict" and len(lst[1]) > 1:
+                    lst = L(v)
                 steps.append((f"[zz{y}, zz{x}] = {v_src(lst)}", f"assign seq 1 2 var {y} var {x} {v_model(lst)}", [x, y]))
             else:
                 lst = rng.choice([L(v, w), X(0, v, w), L(v)])
                 steps.append((f"(zz{x} .+ zz{y}) = {v_src(lst)}", f"assign destr prepend 2 var {x} var {y} {v_model(lst)}", [x, y]))
-        elif r < 0.57:
-            op = rng.choice(list(OPS))
-            opnd = rng.choice([I(1), I(2), I(0), I(-3), R(1, 2), F(1.5), S("a"), L(I(1)), NULL, I(2 ** 70), I(5)])
+        elif r < 0.7:
+            op = rng.choice(ops)
+            opnd = rng.choice([I(1), I(2), I(0), I(-3), R(1, 2), F(1.5), S("a"), L(I(1)), NULL, I(2 ** 70), I(5), Vc(I(1), I(2))])
             steps.append((f"zz{x} {OPS[op]}= {v_src(opnd)}", f"opassign {x} {op} {v_model(opnd)}", [x]))
-        elif r < 0.67:
+        elif r < 0.78:
             if rng.random() < 0.5:
                 steps.append((f"every zz{x}, zz{y} = {v_src(v)}", f"every 2 {x} {y} {v_model(v)}", [x, y]))
             else:
                 steps.append((f"every zz{x} = {v_src(v)}", f"every 1 {x} {v_model(v)}", [x]))
-        elif r < 0.77:
-            op = rng.choice(list(OPS))
+        elif r < 0.87:
+            op = rng.choice(ops)
             opnd = rng.choice([I(1), I(2), R(1, 2), F(1.5), S("a"), L(I(1)), I(5)])
             steps.append((f"every zz{x} {OPS[op]}= {v_src(opnd)}", f"everyop {x} {op} {v_model(opnd)}", [x]))
-        elif r < 0.9:
-            steps.append((f"swap zz{x}, zz{y}", f"swap {x} {y}", [x, y]))
         else:
-            if not listy:
-                steps.append((f"zz{x} = {v_src(v)}", f"assign var {x} {v_model(v)}", [x]))
-            else:
-                x = rng.choice(listy)
-                i = rng.choice([0, 0, 1, -1, 2, -3, 5])
-                e = rng.choice([I(5), I(5), I(1), S("a"), L()])
-                steps.append((f"zz{x}[{int_src(i)}] = {v_src(e)}", f"setindex {x} {i} {v_model(e)}", [x]))
+            steps.append((f"swap zz{x}, zz{y}", f"swap {x} {y}", [x, y]))
     read = "[" + ", ".join(f'try zz{x} catch _ -> "?", try (zz{x} is {ty_src(tys[x] if tys[x] is not None else "anything")}) catch _ -> "e"' for x in names) + "]"
     stmts = [PRELUDE]
     for src, _, _ in steps:
@@ -1597,7 +1624,7 @@ def evaluate_hists(ctx, hists, runner):
             h["impl"].append((status, {f"zz{x}": o for x, o in obs.items()}))
             stats["statements"] += 1
             stats["raised" if status == "err" else "completed"] += 1
-            kind = src.split(" ")[0] if src.startswith(("every", "swap")) else ("index" if "[" in src.split("=")[0] and src.startswith("zz") else "op" if any(f" {o}= " in src for o in OPS.values()) else "assign/declare")
+            kind = "index/slice" if "[" in src.split("=")[0] and not src.startswith("[") else src.split(" ")[0] if src.startswith(("every", "swap")) else ("index" if "[" in src.split("=")[0] and src.startswith("zz") else "op" if any(f" {o}= " in src for o in OPS.values()) else "assign/declare")
             stats["by_stmt"][kind] = stats["by_stmt"].get(kind, 0) + 1
             stats["is_reads"] += 3
             # the property itself: a statement that completed leaves every variable it wrote inside its type
